@@ -641,7 +641,7 @@ fn mutate(rng: &mut Rng, d: &Desc) -> (String, Vec<u8>) {
     }
     let ihdr = 16; // offset of IHDR data
     let label;
-    match rng.below(16) {
+    match rng.below(21) {
         0 => {
             let i = rng.below(8) as usize;
             m[i] ^= 1 << rng.below(8);
@@ -720,6 +720,66 @@ fn mutate(rng: &mut Rng, d: &Desc) -> (String, Vec<u8>) {
             // colour type changed to another valid one
             m[ihdr + 9] = *rng.pick(&[0u8, 2, 3, 4, 6]);
             label = "ct-swap";
+        }
+        16 => {
+            // cut near the end / at and around chunk boundaries
+            let (o, l, _) = *rng.pick(&offs);
+            let at = match rng.below(6) {
+                0 => png.len() - 1,
+                1 => png.len() - 4,
+                2 => png.len() - 5,
+                3 => o + 12 + l,
+                4 => (o + 12 + l).saturating_sub(1),
+                _ => (o + 8).min(png.len()),
+            };
+            m.truncate(at.min(png.len()));
+            label = "cut";
+        }
+        17 => {
+            // IHDR chunk of 12 or 14 data bytes (re-built with a valid CRC)
+            let mut data = png[16..29].to_vec();
+            if rng.chance(1, 2) {
+                data.pop();
+            } else {
+                data.push(rng.next() as u8);
+            }
+            let mut n = png[..8].to_vec();
+            chunk(&mut n, b"IHDR", &data);
+            n.extend_from_slice(&png[33..]);
+            m = n;
+            label = "ihdr-len";
+        }
+        18 => {
+            // a PLTE chunk whose length is / is not a multiple of 3, inserted after IHDR
+            let k = rng.below(8) as usize;
+            let mut n = png[..33].to_vec();
+            chunk(&mut n, b"PLTE", &rng.bytes(k));
+            n.extend_from_slice(&png[33..]);
+            m = n;
+            label = "plte-len";
+        }
+        19 => {
+            // no IEND: the file ends after the last IDAT (or with garbage shorter than a header)
+            if let Some(&(o, _, _)) = offs.iter().find(|c| &c.2 == b"IEND") {
+                m.truncate(o);
+                let k = rng.below(8) as usize;
+                m.extend(rng.bytes(k));
+            }
+            label = "no-iend";
+        }
+        20 => {
+            // a tRNS chunk placed before IHDR is read with the default colour type; second IHDR wins
+            let mut n = png[..8].to_vec();
+            chunk(&mut n, b"tRNS", &rng.bytes(2));
+            n.extend_from_slice(&png[8..33]);
+            if rng.chance(1, 2) {
+                let mut ih = png[16..29].to_vec();
+                ih[9] = *rng.pick(&[0u8, 2, 4, 6]);
+                chunk(&mut n, b"IHDR", &ih);
+            }
+            n.extend_from_slice(&png[33..]);
+            m = n;
+            label = "order";
         }
         13 => {
             // drop a chunk
@@ -879,9 +939,10 @@ fn gen(rng: &mut Rng, tier: Tier) -> Vec<Case> {
             d.z = "s7".into();
         }
         let (label, m) = mutate(rng, &d);
+        let tag = format!("png-mut {} nt", label);
         let label = format!("{}:{}", label, ext_inflate(&m));
         let cfg = if rng.chance(1, 2) { "u" } else { "c" };
-        cases.push(Case::new(show_png_req(cfg, &d, &label, &m), format!("png-mut {} nt", label)));
+        cases.push(Case::new(show_png_req(cfg, &d, &label, &m), tag));
     }
     // 5. raw buffers
     let n_raw = if tier == Tier::Quick { 300 } else { 3000 };
